@@ -4,8 +4,11 @@ set -e
 cd "$(dirname "$0")/sim"
 export GOFLAGS=-mod=mod GOPROXY=off GOSUMDB=off GOTOOLCHAIN=local
 export GOCACHE="${GOCACHE:-/var/tmp/verif-gocache}"
-OVL="$(mktemp /var/tmp/zvovl.XXXXXX)"
-printf '{"Replace": {"/repo/eth2/pool/zz_verif_export.go": "%s/overlay/pool_export.go.txt"}}' "$PWD" > "$OVL"
-go build -overlay "$OVL" -o /dev/null ./cmd/zvsim
-rm -f "$OVL"
+S="$(mktemp -d /var/tmp/zvsetup.XXXXXX)"
+trap 'rm -rf "$S"' EXIT
+V="$(cd .. && pwd)"
+python3 "$V/mkoverlay.py" "$S" "$V"
+go build -overlay "$S/overlay.json" -o /dev/null ./cmd/zvsim
+mkdir -p "$S/r" && python3 "$V/mkoverlay.py" "$S/r" "$V" shim
+go build -race -overlay "$S/r/overlay.json" -o /dev/null ./cmd/zvsim
 echo "setup ok"
